@@ -249,3 +249,268 @@ def run_probe(prop, gen, seed, tier):
     if gen == "probe:c17":
         return probe_c17(prop, seed, tier)
     return {"error": f"unknown probe {gen}"}
+
+
+# -------------------------------------------------------------------------------------------------
+# C17 — derived syntax kinds
+
+def hexs(s):
+    return "-" if s == "" else s.encode().hex()
+
+
+def rust_str(s):
+    out = '"'
+    for ch in s:
+        if ch == '"':
+            out += '\\"'
+        elif ch == "\\":
+            out += "\\\\"
+        elif ch == "\n":
+            out += "\\n"
+        elif ord(ch) < 32:
+            out += "\\u{%x}" % ord(ch)
+        else:
+            out += ch
+    return out + '"'
+
+
+TEXTS17 = ["+", "", "fn", "é→", "a\"b", "->", "\\", "let mut", "\n", "😀"]
+
+
+def gen_enum(rng, wellformed, nmax):
+    """-> dict(kind, reprs, variants=[(fields, discr, attrs)])  attrs: ('l', text) | ('p',) | ('n',) | ('b',)"""
+    n = rng.randint(1, nmax)
+    variants = []
+    for _ in range(n):
+        attrs = []
+        if rng.random() < 0.4:
+            attrs.append(("l", rng.choice(TEXTS17)))
+        variants.append([0, None, attrs])
+    d = dict(kind="enum", reprs=[["u32"]], variants=variants)
+    if wellformed:
+        return d
+    defect = rng.choice(["struct", "union", "norepr", "repr_u16", "repr_c", "repr_two", "repr_dup", "fields_named", "fields_tuple",
+                         "discr", "attr_path", "attr_nv", "attr_bad", "attr_dup", "combo"])
+    v = rng.randrange(n)
+    if defect == "struct":
+        d["kind"] = "struct"
+    elif defect == "union":
+        d["kind"] = "union"
+    elif defect == "norepr":
+        d["reprs"] = []
+    elif defect == "repr_u16":
+        d["reprs"] = [["u16"]]
+    elif defect == "repr_c":
+        d["reprs"] = [["C"]]
+    elif defect == "repr_two":
+        d["reprs"] = [["C", "u32"]]
+    elif defect == "repr_dup":
+        d["reprs"] = [["u32"], ["u32"]]
+    elif defect == "fields_named":
+        variants[v][0] = 1
+    elif defect == "fields_tuple":
+        variants[v][0] = 2
+    elif defect == "discr":
+        variants[v][1] = rng.choice([0, 5, 100])
+    elif defect == "attr_path":
+        variants[v][2].append(("p",))
+    elif defect == "attr_nv":
+        variants[v][2].append(("n",))
+    elif defect == "attr_bad":
+        variants[v][2].append(("b",))
+    elif defect == "attr_dup":
+        variants[v][2] = [("l", "a"), ("l", "b")]
+    else:
+        variants[v][1] = 7
+        variants[(v + 1) % n][2].append(("p",))
+        d["reprs"] = [["u8"]]
+    d["defect"] = defect
+    return d
+
+
+def enum_desc(d):
+    reprs = "/".join("+".join(a) for a in d["reprs"]) if d["reprs"] else "-"
+    vs = []
+    for (f, disc, attrs) in d["variants"]:
+        a = ",".join(("l" + hexs(x[1])) if x[0] == "l" else x[0] for x in attrs) or "-"
+        vs.append(f"{f}/{'-' if disc is None else disc}:{a}")
+    return f"enum {d['kind']} {reprs} {';'.join(vs)}"
+
+
+def enum_rust(name, d):
+    lines = ["#[derive(Debug, Clone, Copy, PartialEq, Eq, Syntax)]"]
+    for r in d["reprs"]:
+        lines.append(f"#[repr({', '.join(r)})]")
+    if d["kind"] == "struct":
+        lines.append(f"pub struct {name};")
+        return lines
+    if d["kind"] == "union":
+        lines.append(f"pub union {name} {{ a: u32 }}")
+        return lines
+    lines.append(f"pub enum {name} {{")
+    for i, (f, disc, attrs) in enumerate(d["variants"]):
+        for a in attrs:
+            if a[0] == "l":
+                lines.append(f"    #[static_text({rust_str(a[1])})]")
+            elif a[0] == "p":
+                lines.append("    #[static_text]")
+            elif a[0] == "n":
+                lines.append('    #[static_text = "x"]')
+            else:
+                lines.append("    #[static_text(5)]")
+        v = f"    V{i}"
+        if f == 1:
+            v += " { x: u8 }"
+        elif f == 2:
+            v += "(u8)"
+        if disc is not None:
+            v += f" = {disc}"
+        lines.append(v + ",")
+    lines.append("}")
+    return lines
+
+
+PRELUDE17 = """#![allow(dead_code, unused)]
+use cstree::{Syntax, RawSyntaxKind};
+"""
+
+
+def build_crate17(name, defs, with_main):
+    src = PRELUDE17
+    ranges = []
+    for i, d in enumerate(defs):
+        start = src.count("\n") + 1
+        src += "\n".join(enum_rust(f"E{i}", d)) + "\n"
+        ranges.append((start, src.count("\n")))
+    if with_main:
+        src += "fn hexs(s: &str) -> String { if s.is_empty() { \"-\".into() } else { s.bytes().map(|b| format!(\"{:02x}\", b)).collect() } }\n"
+        src += "fn main() {\n    std::panic::set_hook(Box::new(|_| {}));\n"
+        for i, d in enumerate(defs):
+            n = len(d["variants"])
+            src += f"""    {{
+        let n: u32 = {n};
+        let mut ok = true;
+        let mut texts: Vec<String> = vec![];
+        for raw in 0..n + 3 {{
+            let r = std::panic::catch_unwind(|| <E{i} as Syntax>::from_raw(RawSyntaxKind(raw)));
+            if raw < n {{
+                match r {{
+                    Ok(v) => {{
+                        if <E{i} as Syntax>::into_raw(v).0 != raw {{ ok = false; }}
+                        texts.push(match <E{i} as Syntax>::static_text(v) {{ Some(t) => hexs(t), None => "none".into() }});
+                    }}
+                    Err(_) => ok = false,
+                }}
+            }} else if r.is_ok() {{ ok = false; }}
+        }}
+        if std::panic::catch_unwind(|| <E{i} as Syntax>::from_raw(RawSyntaxKind(u32::MAX))).is_ok() {{ ok = false; }}
+        println!("E{i} accept {{}} {{}} {{}}", n, ok, texts.join(","));
+    }}
+"""
+        src += "}\n"
+    else:
+        src += "fn main() {}\n"
+    return src, ranges
+
+
+def probe_c17(prop, seed, tier):
+    rng = random.Random(seed * 7919 + 17)
+    n_good = 60 if tier == "thorough" else 30
+    n_bad = 90 if tier == "thorough" else 36
+    nmax = 300 if tier == "thorough" else 24
+    good = [gen_enum(rng, True, nmax if i % 10 == 0 else 8) for i in range(n_good)]
+    bad = [gen_enum(rng, False, 6) for _ in range(n_bad)]
+    # every rejection reason at least once
+    controls = [gen_enum(rng, True, 4) for _ in range(4)]
+    out = result_skeleton("probe:c17", len(good) + len(bad) + len(controls))
+    model_good = drive([enum_desc(d) for d in good])
+    model_bad = drive([enum_desc(d) for d in bad + controls])
+    # --- well-formed crate: must compile, then the laws are checked at run time
+    src, ranges = build_crate17("c17good", good, True)
+    res = cargo_check("c17good", src, run=True)
+    if res["dep_errors"]:
+        out["error"] = "cstree does not compile for the probes: " + "; ".join(res["dep_errors"][:3])
+        return out
+    per, outside = classify(ranges, res)
+    dist = {"wellformed": len(good), "illformed": len(bad), "controls": len(controls), "variants_total": sum(len(d["variants"]) for d in good),
+            "max_variants": max(len(d["variants"]) for d in good), "defects": {}}
+    failing = [i for i in range(len(good)) if per[i]]
+    if failing or outside:
+        for i in failing[:3]:
+            what = f"accepted definition does not compile: {enum_desc(good[i])}: {per[i][0]}"
+            path = R.write_replay(prop, f"oracle-good{i}", [enum_desc(good[i])], [what] + enum_rust(f"E{i}", good[i]))
+            out["oracle"].append({"case": i, "prop": prop, "what": what, "line": 0, "n": 1, "replay": path})
+        if outside and not failing:
+            out["error"] = "well-formed probe crate does not compile: " + "; ".join(outside[:3])
+            return out
+        # rebuild without the failing ones to get the run-time table of the rest
+        keep = [d for i, d in enumerate(good) if i not in failing]
+        src2, _ = build_crate17("c17good", keep, True)
+        res = cargo_check("c17good", src2, run=True)
+        table_defs = keep
+        table_model = [m for i, m in enumerate(model_good) if i not in failing]
+    else:
+        table_defs = good
+        table_model = model_good
+    table = {}
+    for line in (res["run"] or "").split("\n"):
+        if line.startswith("E"):
+            k, rest = line.split(" ", 1)
+            table[int(k[1:])] = rest.strip()
+    distinct = set()
+    for i, d in enumerate(table_defs):
+        impl = table.get(i, "<no output>")
+        m = table_model[i] if i < len(table_model) else "<missing>"
+        distinct.add(enum_desc(d))
+        if impl.rstrip() != m.rstrip():
+            out["disagreeing_lines"] += 1
+            if len(out["disagreements"]) < 3:
+                path = R.write_replay(prop, f"disagree-good{i}", [enum_desc(d)], ["model/implementation disagreement (derive probe)", f"impl: {impl}", f"model: {m}"] + enum_rust(f"E{i}", d))
+                out["disagreements"].append({"case": enum_desc(d), "replay": path, "detail": [f"impl={impl} model={m}"]})
+        parts = impl.split(" ")
+        if len(parts) < 3 or parts[0] != "accept" or parts[2] != "true":
+            what = f"conversion laws fail for an accepted enum ({enum_desc(d)}): {impl}"
+            path = R.write_replay(prop, f"oracle-laws{i}", [enum_desc(d)], [what] + enum_rust(f"E{i}", d))
+            out["oracle"].append({"case": i, "prop": prop, "what": what, "line": 0, "n": 1, "replay": path})
+        else:
+            # static texts are exactly the annotated ones
+            want = ",".join(("none" if not [a for a in v[2] if a[0] == "l"] else hexs([a for a in v[2] if a[0] == "l"][0][1])) for v in d["variants"])
+            got = parts[3] if len(parts) > 3 else ""
+            if want != got:
+                what = f"static texts of {enum_desc(d)} are {got}, annotated {want}"
+                path = R.write_replay(prop, f"oracle-texts{i}", [enum_desc(d)], [what] + enum_rust(f"E{i}", d))
+                out["oracle"].append({"case": i, "prop": prop, "what": what, "line": 0, "n": 1, "replay": path})
+        if len(out["samples"]) < 2:
+            out["samples"].append({"probe": enum_desc(d), "impl": impl, "model": m})
+    # --- ill-formed crate: every definition must draw an error located in it, the controls none
+    alldefs = bad + controls
+    src, ranges = build_crate17("c17bad", alldefs, False)
+    res = cargo_check("c17bad", src)
+    per, outside = classify(ranges, res)
+    for i, d in enumerate(alldefs):
+        is_control = i >= len(bad)
+        rejected = bool(per[i])
+        impl = "reject" if rejected else "accept"
+        m = model_bad[i].split(" ")[0] if i < len(model_bad) else "<missing>"
+        distinct.add(enum_desc(d))
+        if not is_control:
+            dist["defects"][d["defect"]] = dist["defects"].get(d["defect"], 0) + 1
+        if m != impl:
+            out["disagreeing_lines"] += 1
+            if len(out["disagreements"]) < 3:
+                path = R.write_replay(prop, f"disagree-bad{i}", [enum_desc(d)], ["model/implementation disagreement (derive probe)", f"rustc: {impl}", f"model: {m}"] + enum_rust(f"E{i}", d) + per[i][:2])
+                out["disagreements"].append({"case": enum_desc(d), "replay": path, "detail": [f"rustc={impl} model={m}"]})
+        if not is_control and not rejected:
+            what = f"ill-formed definition ({d['defect']}) is accepted: {enum_desc(d)}"
+            path = R.write_replay(prop, f"oracle-bad{i}", [enum_desc(d)], [what] + enum_rust(f"E{i}", d))
+            out["oracle"].append({"case": i, "prop": prop, "what": what, "line": 0, "n": 1, "replay": path})
+        if is_control and rejected:
+            what = f"well-formed control next to ill-formed definitions is rejected: {per[i][0]}"
+            path = R.write_replay(prop, f"oracle-control{i}", [enum_desc(d)], [what] + enum_rust(f"E{i}", d))
+            out["oracle"].append({"case": i, "prop": prop, "what": what, "line": 0, "n": 1, "replay": path})
+        if len(out["samples"]) < 4 and not is_control:
+            out["samples"].append({"probe": enum_desc(d), "defect": d["defect"], "rustc": impl, "model": m, "first_error": (per[i] or [""])[0][:100]})
+    out["distinct_nontrivial"] = len(distinct)
+    out["dist"] = dist
+    out["disagreeing_cases"] = out["disagreeing_lines"]
+    return out
